@@ -37,7 +37,8 @@ ASSUMPTIONS = [
 FLOORS = {'rounding_calls': 5000, 'elementary_calls': 2000,
           'domain_calls': 30, 'contract_evals': 5000, 'formula_calls': 300,
           'functions_seen': 30, 'host_decimal_context_calls': 500,
-          'edge_magnitude_calls': 300, 'near_whole_result_calls': 300}
+          'edge_magnitude_calls': 300, 'near_whole_result_calls': 300,
+          'numpy_operand_domain_cases': 100}
 ANCHOR_FUNCS = {'xlcalculator/xlfunctions/math.py': [
     'ROUND', 'ROUNDUP', 'ROUNDDOWN', 'TRUNC', 'INT', 'CEILING', 'FLOOR',
     'EVEN', '_round', 'MOD', 'LN', 'LOG', 'LOG10', 'SQRT', 'ATAN2', 'FACT',
@@ -503,6 +504,54 @@ def run(ctx):
             R.both(fname, tuple(float(a) for a in args), 'error', 'domain',
                    (fname, 'outside', args), formula=True,
                    tags=('outside-domain',))
+        # ... the same when the operands are numpy scalars (what the
+        # library's own numpy-backed functions hand on) or typed Numbers
+        import numpy
+        from xlcalculator.xlfunctions import func_xltypes as T_
+        for fname, args in outside:
+            for sname, conv in (
+                    ('numpy.float64', lambda a: numpy.float64(a)),
+                    ('numpy.int64', lambda a: numpy.int64(a)
+                     if float(a).is_integer() and abs(a) < 2 ** 62
+                     else numpy.float64(a)),
+                    ('Number(numpy.float64)',
+                     lambda a: T_.Number(numpy.float64(a)))):
+                nargs = tuple(conv(a) for a in args)
+                got = monitors.call_outcome(R.F[fname], *nargs)
+                ctx.event('numpy_operand_domain_cases')
+                R.judge(fname, tuple(repr(a) for a in nargs), 'error', got,
+                        'domain', (fname, 'outside', args, sname), 0, 'lib',
+                        ('outside-domain', 'numpy-operands'))
+        # ... and when another function of the library produced the operand
+        produced = [
+            ('=MOD(DEGREES(A1),0)', '#DIV/0!'), ('=MOD(7,COS(A1)-COS(A1))',
+                                                '#DIV/0!'),
+            ('=MOD(LOG10(1000),A2)', '#DIV/0!'), ('=MOD(ABS(A1),SIGN(A2))',
+                                                 '#DIV/0!'),
+            ('=MOD(ATAN(A1),RADIANS(A2))', '#DIV/0!'),
+            ('=MOD(SQRT(A1),A2)', '#DIV/0!'), ('=MOD(A2,SIN(A2))', '#DIV/0!'),
+            ('=LN(COS(A1)-COS(A1))', '#NUM!'), ('=SQRT(SIN(A1)-1.5)', '#NUM!'),
+            ('=LOG10(RADIANS(A2))', '#NUM!'), ('=POWER(SIN(A2),-1)', 'error'),
+            ('=ACOS(EXP(A1))', '#NUM!'), ('=FLOOR(DEGREES(A1),SIN(A2))',
+                                          '#DIV/0!'),
+            ('=FACT(COS(A1)-2)', '#NUM!'), ('=1/SIN(A2)', '#DIV/0!'),
+            ('=DEGREES(A1)/RADIANS(A2)', '#DIV/0!'),
+        ]
+        outs = subject.eval_batch([t for t, _ in produced],
+                                  {'A1': 1.25, 'A2': 0})
+        for (text, code), got in zip(produced, outs):
+            ctx.event('numpy_operand_domain_cases')
+            ctx.event('formula_calls')
+            ctx.case(('produced-operand', text))
+            ok = got[0] == 'value' and got[1][0] == 'err' and (
+                code == 'error' or got[1][1] == code)
+            if not ok:
+                ctx.fail(f'{text} with A1=1.25, A2=0 (operands produced by '
+                         f'other functions): observed {got}, expected '
+                         f'{code}', {'formula': text, 'A1': 1.25, 'A2': 0,
+                                     'observed': got, 'expected': code},
+                         monitor='reference-value',
+                         group=f'produced-operand:{got[0]}')
         # finite results close to the largest double stay finite numbers
         for args in ((10.0, 308.2), (1.2e154, 2.0), (-5e102, 3.0),
                      (2.0, 1023.9), (1.5e308, 1.0), (10.0, 308.0),
